@@ -60,7 +60,8 @@ class G:
         return seq[self.i(0, len(seq) - 1)]
 
     def chance(self, percent):
-        return self.i(0, 99) < percent
+        # rotated so that the range's edge values (which Hypothesis over-samples) are not in small windows
+        return (self.i(0, 99) + 37) % 100 < percent
 
     def fresh(self, prefix="v"):
         self.counter += 1
@@ -420,4 +421,549 @@ def program(cfg=None, n_stmts=(1, 8)):
         g = G(draw, cfg)
         n = draw(_int(n_stmts[0], n_stmts[1]))
         return g.stmts(n, 3)
+    return strat()
+
+
+# ======================================================================================
+# closure profile (C02)
+# ======================================================================================
+class GC(G):
+    """Scenario generator for lexical scoping and captures.
+
+    A *maker* is a function that declares variables of every kind, creates closures over
+    drawn subsets of them (directly, in loops, in catch blocks, through nested makers) and
+    returns them in a list; the caller interleaves calls of the returned closures of several
+    maker invocations with prints."""
+
+    def __init__(self, draw, cfg=None):
+        G.__init__(self, draw, cfg or Cfg(max_depth=3, p_confuse=0))
+        self.makers = []  # (name, param count, [closure sigs])
+
+    def num_expr(self, d=2):
+        return self.expr("num", d)
+
+    def closure_body(self, nparams):
+        """A lambda over currently visible variables. Returns (ast, ret kind)."""
+        params = [self.fresh("q") for _ in range(nparams)]
+        self.scopes.append([Var(p, "num", True) for p in params])
+        self.fn_ret.append("num")
+        saved_loop, self.in_loop = self.in_loop, 0
+        c = self.i(0, 9)
+        if c < 4:
+            body = ("expr", self.num_expr(2))
+        else:
+            stmts = []
+            for _ in range(self.i(1, 3)):
+                vs = self.visible(lambda v: v.kind == "num" and v.mutable)
+                cc = self.i(0, 9)
+                if vs and cc < 6:
+                    v = self.pick(vs)
+                    if self.chance(50):
+                        stmts.append(("expr", ("assign", ("var", v.name), self.num_expr(2))))
+                    else:
+                        stmts.append(("expr", ("opassign", self.pick(["+", "-", "*"]), ("var", v.name),
+                                               self.num_expr(1))))
+                elif cc < 8:
+                    stmts.append(("print", self.num_expr(1)))
+                else:
+                    name = self.fresh()
+                    stmts.append(("let", name, self.num_expr(1)))
+                    self.declare(Var(name, "num", True))
+            if self.chance(70):
+                stmts.append(("implicit", self.num_expr(2)))
+            else:
+                stmts.append(("return", self.num_expr(2)))
+            body = ("block", stmts)
+        self.in_loop = saved_loop
+        self.fn_ret.pop()
+        self.scopes.pop()
+        return ("lambda", params, body)
+
+    def maker(self, depth):
+        name = self.fresh("mk")
+        nparams = self.i(0, 3)
+        params = [self.fresh("p") for _ in range(nparams)]
+        self.scopes.append([Var(p, "num", True) for p in params])
+        self.fn_ret.append("list")
+        saved_loop, self.in_loop = self.in_loop, 0
+        body = []
+        made = []  # local names holding closures, with param counts
+        lists = []  # local names holding lists of 0-ary closures with their (static) length
+        for _ in range(self.i(2, 7)):
+            c = self.i(0, 99)
+            if c < 18:
+                v = self.fresh()
+                body.append(("let", v, self.num_expr(2)))
+                self.declare(Var(v, "num", True))
+            elif c < 45:
+                g = self.fresh("g")
+                k = self.i(0, 2)
+                if self.chance(25):
+                    # a named inner function instead of a lambda
+                    params2 = [self.fresh("q") for _ in range(k)]
+                    self.scopes.append([Var(p, "num", True) for p in params2])
+                    self.fn_ret.append("num")
+                    st_ = []
+                    vs = self.visible(lambda v: v.kind == "num" and v.mutable)
+                    if vs and self.chance(70):
+                        st_.append(("expr", ("opassign", "+", ("var", self.pick(vs).name), self.num_expr(1))))
+                    st_.append(("implicit", self.num_expr(2)))
+                    self.fn_ret.pop()
+                    self.scopes.pop()
+                    body.append(("fn", g, params2, st_))
+                else:
+                    body.append(("let", g, self.closure_body(k)))
+                self.declare(Var(g, "fn", False, params=["num"] * k, ret="num"))
+                made.append((g, k))
+            elif c < 58 and self.cfg.loops:
+                acc = self.fresh("acc")
+                n = self.i(1, 3)
+                item = self.fresh("i")
+                body.append(("let", acc, ("list", [])))
+                self.scopes.append([Var(item, "num", True)])
+                inner = []
+                if self.chance(60):
+                    j = self.fresh()
+                    inner.append(("let", j, self.num_expr(1)))
+                    self.declare(Var(j, "num", True))
+                inner.append(("expr", ("call", ("prop", ("var", acc), "push"), [self.closure_body(0)])))
+                self.scopes.pop()
+                body.append(("for", item, ("call", ("prop", ("num", float(n)), "times"), []), inner))
+                lists.append((acc, n))
+            elif c < 66 and made:
+                g, k = self.pick(made)
+                body.append(("print", ("call", ("var", g), [self.num_expr(1) for _ in range(k)])))
+            elif c < 74:
+                vs = self.visible(lambda v: v.kind == "num" and v.mutable)
+                if vs:
+                    v = self.pick(vs)
+                    body.append(("expr", ("opassign", self.pick(["+", "*"]), ("var", v.name), self.num_expr(1))))
+                    body.append(("print", ("var", v.name)))
+            elif c < 82 and depth > 0:
+                inner_stmt, inner_name, inner_np, inner_sigs = self.maker(depth - 1)
+                body.append(inner_stmt)
+                r = self.fresh("r")
+                body.append(("let", r, ("call", ("var", inner_name), [self.num_expr(1) for _ in range(inner_np)])))
+                # expose the nested closures through wrappers so they are captures of captures
+                for idx, k in enumerate(inner_sigs[:2]):
+                    g = self.fresh("g")
+                    ps = [self.fresh("q") for _ in range(k)]
+                    body.append(("let", g, ("lambda", ps, ("expr", ("call", ("index", ("var", r), ("num", float(idx))),
+                                                                  [("var", p) for p in ps])))))
+                    made.append((g, k))
+            elif c < 90 and self.cfg.exceptions:
+                g = self.fresh("g")
+                ev = self.fresh("e")
+                body.append(("let", g, ("nil",)))
+                msg = "m%d" % self.i(0, 9)
+                body.append(("try", [("raise", ("call", ("var", "Error"), [("str", msg)]))],
+                             [(ev, None, [("expr", ("assign", ("var", g), ("lambda", [], ("expr", ("call", ("prop", (
+                                 "prop", ("var", ev), "message"), "len"), [])))))])]))
+                made.append((g, 0))
+            else:
+                body.append(("print", self.num_expr(2)))
+        sigs = [k for (_, k) in made]
+        ret_items = [("var", g) for (g, _) in made]
+        for (acc, n) in lists:
+            for idx in range(n):
+                ret_items.append(("index", ("var", acc), ("num", float(idx))))
+                sigs.append(0)
+        body.append(("return", ("list", ret_items)))
+        self.in_loop = saved_loop
+        self.fn_ret.pop()
+        self.scopes.pop()
+        self.declare(Var(name, "fn", False, params=["num"] * nparams, ret="list"))
+        return ("fn", name, params, body), name, nparams, sigs
+
+    def scenario(self):
+        out = []
+        # module level variables that makers may capture
+        for _ in range(self.i(0, 2)):
+            v = self.fresh("m")
+            out.append(("let", v, self.num_expr(1)))
+            self.declare(Var(v, "num", True))
+        makers = []
+        for _ in range(self.i(1, 2)):
+            st_, name, np, sigs = self.maker(self.i(0, 2))
+            out.append(st_)
+            makers.append((name, np, sigs))
+        results = []
+        for _ in range(self.i(1, 3)):
+            name, np, sigs = self.pick(makers)
+            r = self.fresh("r")
+            out.append(("let", r, ("call", ("var", name), [self.num_expr(1) for _ in range(np)])))
+            results.append((r, sigs))
+        for _ in range(self.i(2, 8)):
+            r, sigs = self.pick(results)
+            c = self.i(0, 9)
+            if sigs and c < 8:
+                idx = self.i(0, len(sigs) - 1)
+                call = ("call", ("index", ("var", r), ("num", float(idx))), [self.num_expr(1) for _ in range(sigs[idx])])
+                out.append(("print", call))
+            else:
+                vs = self.visible(lambda v: v.kind == "num" and v.mutable)
+                if vs:
+                    v = self.pick(vs)
+                    out.append(("expr", ("opassign", "+", ("var", v.name), ("num", 1.0))))
+                    out.append(("print", ("var", v.name)))
+        return out
+
+
+def closure_program(cfg=None):
+    @st.composite
+    def strat(draw):
+        g = GC(draw, cfg)
+        return g.scenario()
+    return strat()
+
+
+# ======================================================================================
+# class profile (C03 / C13)
+# ======================================================================================
+METHOD_ARITY = {"m1": 0, "m2": 1, "m3": 0, "m4": 2, "m5": 1}
+FIELD_POOL = ["f1", "f2", "f3", "f4", "f5", "f6"]
+
+
+class ClassInfo:
+    def __init__(self, name, parent):
+        self.name = name
+        self.parent = parent
+        self.own_fields = []
+        self.init_params = None  # None: no own init
+        self.methods = []  # own method names
+        self.statics = []
+        self.shadow = []  # method names shadowed by a lambda field
+        self.nil_fields = set()  # fields that may still be nil after construction
+
+    def all_fields(self):
+        out = list(self.parent.all_fields()) if self.parent else []
+        for f in self.own_fields:
+            if f not in out:
+                out.append(f)
+        return out
+
+    def all_methods(self):
+        out = set(self.parent.all_methods()) if self.parent else set()
+        out.update(self.methods)
+        return out
+
+    def parent_methods(self):
+        return self.parent.all_methods() if self.parent else set()
+
+    def has_init(self):
+        c = self
+        while c is not None:
+            if c.init_params is not None:
+                return True
+            c = c.parent
+        return False
+
+    def maybe_nil(self):
+        out = set(self.parent.maybe_nil()) if self.parent else set()
+        out.update(self.nil_fields)
+        return out
+
+    def init_arity(self):
+        c = self
+        while c is not None:
+            if c.init_params is not None:
+                return len(c.init_params)
+            c = c.parent
+        return 0
+
+    def depth(self):
+        d, c = 1, self.parent
+        while c is not None:
+            d += 1
+            c = c.parent
+        return d
+
+    def shadows(self):
+        out = set(self.parent.shadows()) if self.parent else set()
+        out.update(self.shadow)
+        return out
+
+
+class GK(G):
+    def __init__(self, draw, cfg=None):
+        G.__init__(self, draw, cfg or Cfg(max_depth=3, p_confuse=0))
+        self.klass = None  # ClassInfo while generating a method body
+        self.in_init = False
+        self.classes = []
+
+    # field and method reads join the leaves while inside a method
+    def leaf(self, kind):
+        k = self.klass
+        if k is not None and kind == "num" and self.chance(55):
+            fields = [f for f in k.all_fields() if f not in k.shadows()]
+            if self.in_init:
+                fields = [f for f in fields if f in self.assigned]
+            else:
+                fields = [f for f in fields if f not in k.maybe_nil()]
+            c = self.i(0, 9)
+            if fields and c < 6:
+                f = self.pick(fields)
+                return ("prop", ("self",), f) if self.chance(60) else ("at", f)
+            ms = sorted(m for m in k.all_methods() if METHOD_ARITY[m] == 0 and m not in self._busy)
+            if ms and c < 8 and self._depth_guard():
+                return ("call", ("prop", ("self",), self.pick(ms)), [])
+        return G.leaf(self, kind)
+
+    _busy = ()
+
+    def _depth_guard(self):
+        return False  # method-to-method calls are generated explicitly (termination)
+
+    def method_body(self, k, mname, nparams, is_init=False, is_static=False):
+        params = [self.fresh("p") for _ in range(nparams)]
+        self.scopes.append([Var(p, "num", True) for p in params])
+        self.fn_ret.append("num")
+        saved = (self.klass, self.in_init, self.in_loop)
+        self.klass = None if is_static else k
+        self.in_init = is_init
+        self.in_loop = 0
+        body = []
+        if is_init:
+            self.assigned = set()
+            # super.init first (most of the time) so inherited fields are filled
+            if k.parent is not None and k.parent.has_init():
+                if self.chance(90):
+                    body.append(("expr", ("call", ("super", "init"),
+                                          [self.expr("num", 1) for _ in range(k.parent.init_arity())])))
+                    self.assigned.update(f for f in k.parent.all_fields() if f not in k.parent.maybe_nil())
+                else:
+                    k.nil_fields.update(k.parent.all_fields())
+            order = list(k.own_fields)
+            # drawn order
+            for i in range(len(order) - 1, 0, -1):
+                j = self.i(0, i)
+                order[i], order[j] = order[j], order[i]
+            for f in order:
+                tgt = ("prop", ("self",), f) if self.chance(60) else ("at", f)
+                if f in k.shadow_fields:
+                    val = ("lambda", [self.fresh("q") for _ in range(METHOD_ARITY[k.shadow_fields[f]])],
+                           ("expr", ("num", float(self.i(40, 49)))))
+                else:
+                    val = self.expr("num", 2)
+                asg = ("expr", ("assign", tgt, val))
+                if self.chance(20) and f not in k.shadow_fields:
+                    if self.chance(75):
+                        body.append(("if", self.expr("bool", 1), [asg], [("expr", ("assign", tgt, self.expr("num", 1)))]))
+                        self.assigned.add(f)
+                    else:
+                        body.append(("if", self.expr("bool", 1), [asg], None))
+                        k.nil_fields.add(f)
+                else:
+                    body.append(asg)
+                    self.assigned.add(f)
+        else:
+            for _ in range(self.i(0, 3)):
+                c = self.i(0, 99)
+                fields = [f for f in (k.all_fields() if not is_static else []) if f not in k.shadows()]
+                if fields and c < 40:
+                    fields = fields  # writes may target possibly-nil fields too
+                    f = self.pick(fields)
+                    tgt = ("prop", ("self",), f) if self.chance(60) else ("at", f)
+                    if self.chance(50):
+                        body.append(("expr", ("assign", tgt, self.expr("num", 2))))
+                    else:
+                        body.append(("expr", ("opassign", self.pick(["+", "-", "*"]), tgt, self.expr("num", 1))))
+                elif c < 55:
+                    body.append(("print", self.expr("num", 2)))
+                elif c < 70:
+                    v = self.fresh()
+                    body.append(("let", v, self.expr("num", 2)))
+                    self.declare(Var(v, "num", True))
+                elif c < 80 and not is_static and mname in k.parent_methods():
+                    # super call: zero args is fused into SuperInvoke, with args it is get-then-call
+                    args = [self.expr("num", 1) for _ in range(METHOD_ARITY[mname])]
+                    body.append(("print", ("call", ("super", mname), args)))
+                elif c < 88 and not is_static and mname in k.parent_methods():
+                    # super through a closure inside the method
+                    args = [self.expr("num", 1) for _ in range(METHOD_ARITY[mname])]
+                    g = self.fresh("g")
+                    body.append(("let", g, ("lambda", [], ("expr", ("call", ("super", mname), args)))))
+                    body.append(("print", ("call", ("var", g), [])))
+                elif not is_static:
+                    # call a method that sits lower in a fixed order (no recursion): m5 > m4 > ... > m1
+                    lower = sorted(m for m in k.all_methods() if m < mname and not self.returns_closure(k, m)
+                                   and m not in k.shadows())
+                    if lower:
+                        m2 = self.pick(lower)
+                        body.append(("print", ("call", ("prop", ("self",), m2),
+                                               [self.expr("num", 1) for _ in range(METHOD_ARITY[m2])])))
+            ret = self.expr("num", 2)
+            if not is_static and self.chance(12):
+                # a closure over self leaves the method
+                body.append(("return", ("lambda", [], ("expr", ret))))
+                self._ret_closure = True
+            elif self.chance(60):
+                body.append(("implicit", ret))
+            else:
+                body.append(("return", ret))
+        self.klass, self.in_init, self.in_loop = saved
+        self.fn_ret.pop()
+        self.scopes.pop()
+        return (mname, params, body)
+
+    def klass_decl(self):
+        name = "K%d" % (len(self.classes) + 1)
+        parent = None
+        if self.classes and self.chance(65):
+            cands = [c for c in self.classes if c.depth() < 4]
+            if cands:
+                parent = self.pick(cands)
+        k = ClassInfo(name, parent)
+        k.shadow_fields = {}
+        inherited = k.parent.all_fields() if parent else []
+        nf = self.i(0, 3)
+        for _ in range(nf):
+            f = self.pick(FIELD_POOL)
+            if f not in k.own_fields:
+                k.own_fields.append(f)
+        has_init = bool(k.own_fields) or self.chance(30)
+        # method set
+        for m in sorted(METHOD_ARITY):
+            if self.chance(45):
+                k.methods.append(m)
+        # a lambda field shadowing a method
+        if has_init and self.chance(18):
+            cands = sorted(k.all_methods() | set(k.methods))
+            if cands:
+                m = self.pick(cands)
+                fname = m  # the field has the method's name
+                if fname not in k.own_fields:
+                    k.own_fields.append(fname)
+                k.shadow_fields[fname] = m
+                k.shadow.append(m)
+        init = None
+        if has_init:
+            k.init_params = [None] * self.i(0, 2)
+            init = self.method_body(k, "init", len(k.init_params), is_init=True)
+            k.init_params = init[1]
+        methods = []
+        self.closure_methods = getattr(self, "closure_methods", set())
+        for m in k.methods:
+            self._ret_closure = False
+            mb = self.method_body(k, m, METHOD_ARITY[m])
+            if self._ret_closure:
+                self.closure_methods.add((k.name, m))
+            methods.append(mb)
+        statics = []
+        if self.chance(30):
+            sname = "s%d" % self.i(1, 2)
+            statics.append(self.method_body(k, sname, self.i(0, 1), is_static=True))
+            k.statics.append((sname, len(statics[-1][1])))
+        self.classes.append(k)
+        self.declare(Var(name, "class", False))
+        return ("class", name, parent.name if parent else None, init, methods, statics)
+
+    def returns_closure(self, k, m):
+        c = k
+        while c is not None:
+            if m in c.methods:
+                return (c.name, m) in self.closure_methods
+            c = c.parent
+        return False
+
+    def scenario(self):
+        out = []
+        for _ in range(self.i(1, 5)):
+            out.append(self.klass_decl())
+        # helper call sites reached by instances of several classes
+        sites = [
+            ("fn", "site1", ["o"], [("implicit", ("call", ("prop", ("var", "o"), "m1"), []))]),
+            ("fn", "site2", ["o", "a"], [("implicit", ("call", ("prop", ("var", "o"), "m2"), [("var", "a")]))]),
+            ("fn", "site3", ["o"], [("implicit", ("prop", ("var", "o"), "f1"))]),
+            ("fn", "site4", ["o", "v"], [("expr", ("assign", ("prop", ("var", "o"), "f2"), ("var", "v"))),
+                                         ("implicit", ("prop", ("var", "o"), "f2"))]),
+            ("fn", "site5", ["o"], [("let", "b", ("prop", ("var", "o"), "m3")), ("implicit", ("call", ("var", "b"), []))]),
+            ("fn", "call0", ["f"], [("implicit", ("call", ("var", "f"), []))]),
+        ]
+        out.extend(sites)
+        objs = []
+        for _ in range(self.i(1, 5)):
+            k = self.pick(self.classes)
+            o = self.fresh("o")
+            n = k.init_arity()
+            if self.chance(3):
+                n += 1
+            out.append(("let", o, ("call", ("var", k.name), [self.expr("num", 1) for _ in range(n)])))
+            objs.append((o, k))
+        for _ in range(self.i(3, 12)):
+            o, k = self.pick(objs)
+            c = self.i(0, 99)
+            ov = ("var", o)
+
+            def guarded(stmt):
+                return ("try", [stmt], [("e", None, [("print", ("call", ("prop", ("call", ("prop", ("var", "e"), "cls"), []), "name"), []))])])
+
+            def show(e, m=None):
+                # values that may be closures are called before printing
+                return ("print", e)
+            if c < 14:
+                out.append(guarded(("print", ("call", ("var", "site1"), [ov]))) if ("m1" not in k.all_methods() or self.returns_closure(k, "m1") or "m1" in k.shadows()) is False else guarded(("expr", ("call", ("var", "site1"), [ov]))))
+            elif c < 24:
+                safe = "m2" in k.all_methods() and not self.returns_closure(k, "m2")
+                call = ("call", ("var", "site2"), [ov, self.expr("num", 1)])
+                out.append(guarded(("print", call) if safe else ("expr", call)))
+            elif c < 32:
+                out.append(guarded(("print", ("call", ("var", "site3"), [ov])) if "f1" in k.all_fields() and "f1" not in k.shadows() else ("expr", ("call", ("var", "site3"), [ov]))))
+            elif c < 40:
+                out.append(guarded(("print", ("call", ("var", "site4"), [ov, self.expr("num", 1)]))))
+            elif c < 48:
+                safe = "m3" in k.all_methods() and not self.returns_closure(k, "m3")
+                call = ("call", ("var", "site5"), [ov])
+                out.append(guarded(("print", call) if safe else ("expr", call)))
+            elif c < 60:
+                ms = sorted(k.all_methods())
+                if ms:
+                    m = self.pick(ms)
+                    call = ("call", ("prop", ov, m), [self.expr("num", 1) for _ in range(METHOD_ARITY[m])])
+                    if self.returns_closure(k, m) and m not in k.shadows():
+                        out.append(guarded(("print", ("call", call, []))))
+                    else:
+                        out.append(guarded(("print", call)))
+            elif c < 68:
+                fields = [f for f in k.all_fields() if f not in k.shadows()]
+                if fields:
+                    f = self.pick(fields)
+                    out.append(("expr", ("assign", ("prop", ov, f), self.expr("num", 1))))
+                    out.append(("print", ("prop", ov, f)))
+            elif c < 75:
+                # bound method passed around and called later
+                ms = sorted(m for m in k.all_methods() if METHOD_ARITY[m] == 0 and not self.returns_closure(k, m)
+                            and m not in k.shadows())
+                if ms:
+                    m = self.pick(ms)
+                    b = self.fresh("b")
+                    out.append(("let", b, ("prop", ov, m)))
+                    out.append(("print", ("call", ("var", "call0"), [("var", b)])))
+            elif c < 81:
+                # undeclared property: read / write / invoke
+                cc = self.i(0, 2)
+                if cc == 0:
+                    out.append(guarded(("print", ("prop", ov, "zz"))))
+                elif cc == 1:
+                    out.append(guarded(("expr", ("assign", ("prop", ov, "zz"), ("num", 1.0)))))
+                else:
+                    out.append(guarded(("print", ("call", ("prop", ov, "zz"), []))))
+            elif c < 87:
+                st_ = [s for s in k.statics]
+                if st_:
+                    sname, n = self.pick(st_)
+                    out.append(("print", ("call", ("prop", ("var", k.name), sname), [self.expr("num", 1) for _ in range(n)])))
+            elif c < 93:
+                out.append(("print", ("call", ("prop", ("call", ("prop", ov, "cls"), []), "name"), [])))
+            else:
+                o2, k2 = self.pick(objs)
+                out.append(("print", ("bin", "==", ov, ("var", o2))))
+        return out
+
+
+def class_program(cfg=None):
+    @st.composite
+    def strat(draw):
+        g = GK(draw, cfg)
+        return g.scenario()
     return strat()
